@@ -213,6 +213,7 @@ ORDER_MENU = [
     dict(sel=1, side="LAY", ot="LOC", liab=6.0, price=4.0),
     dict(sel=2, side="BACK", ot="LOC", liab=3.0, price=2.0),
     dict(sel=3, side="BACK", price=5.0, size=2.0),
+    dict(sel=1, side="BACK", price=2.0, size=8.0),  # 5 @ 2.0 at once, the rest filled passively after the removal
 ]
 MARKETS = {
     "WIN": dict(market_type="WIN", nwin=1, results=[{1: "WINNER", 2: "LOSER", 3: "LOSER"}, {1: "LOSER", 2: "WINNER", 3: "LOSER"}, {1: "WINNER", 2: "WINNER", 3: "LOSER"}, {1: "WINNER", 2: "WINNER", 3: "WINNER"}]),
@@ -229,6 +230,8 @@ def _e2e_one(args):
     ticks = [[500, ["Q"]]]
     if removal:
         ticks.append([500, ["RM", 3, removal]])
+    # volume trades at 2.0 on selection 1 (after the removal, if any): resting backs at 2.0 get a later fragment
+    ticks.append([500, ["T", 1, [[2.0, 20]]]])
     ticks.append([500, ["IP", {1: 2.5, 2: 3.1, 3: 5.2}, 1]])
     ticks.append([500, ["CL", result]])
     strategies = []
